@@ -562,6 +562,28 @@ pub fn gen_c01(run: &mut Run, seed: u64, thorough: bool) {
         g.approve(&[m.clone()], &pf, &format!("approve-by-malformed-initial-set-{name}"));
         g.q_msg(&m);
     }
+    // a VERY large live set (300 entries: 298 keys with weight 1 that never sign, then two real signers with weight 200 each,
+    // threshold 400): the two signatures at the very end of the proof carry it; one of them alone does not
+    {
+        let mut signers: Vec<([u8; 32], u128)> = (0..298usize).map(|i| { let mut k = [0u8; 32]; k[2] = (i >> 8) as u8; k[3] = i as u8; k[4] = 1; (k, 1u128) }).collect();
+        let mut real = vec![pk(0), pk(1)];
+        real.sort();
+        signers.push((real[0], 200));
+        signers.push((real[1], 200));
+        signers.sort_by(|a, b| a.0.cmp(&b.0));
+        let big = WS { signers: signers.clone(), threshold: 400, nonce: [0x77; 32] };
+        g.new_gateway("c01-very-large-set", vec![big.clone()], 1, 0);
+        for (nm, who) in [("both-tail-signers", vec![true, true]), ("one-tail-signer", vec![false, true]), ("other-tail-signer", vec![true, false])] {
+            let m = g.fresh_msg();
+            let dh = approve_data_hash(&g.env, &[m.clone()]);
+            let d = g.signers_digest(&big, &dh);
+            let modes: Vec<SigMode> = signers.iter().map(|(k, _)| if *k == real[0] { if who[0] { SigMode::Valid } else { SigMode::Unsigned } } else if *k == real[1] { if who[1] { SigMode::Valid } else { SigMode::Unsigned } } else { SigMode::Unsigned }).collect();
+            let pf = g.proof(&big, &d, &modes);
+            g.approve(&[m.clone()], &pf, &format!("very-large-set-{nm}"));
+            g.q_msg(&m);
+            g.validate_proof(&dh, &pf, &format!("very-large-set-{nm}-vp"));
+        }
+    }
     // near-overflow: weights summing to exactly 2^128-1; and a proof whose declared weights overflow
     {
         let idx: Vec<usize> = (0..3).collect();
@@ -741,6 +763,41 @@ pub fn gen_c02(run: &mut Run, seed: u64, thorough: bool) {
                 g.q_msg(&mb);
             }
         }
+    }
+    // directed: signer ROTATIONS between approval and consumption (retention 0 and 2): what was approved stays approved, with
+    // its content, whoever signs now; it is consumed once; a message approved by the new set behaves alike
+    for ret in [0u64, 2] {
+        let ws = g.mk_set(2, 0, 2);
+        g.new_gateway(&format!("c02-rotation-between-ret{ret}"), vec![ws.clone()], ret, 0);
+        let app = Addr::c(60);
+        let mk = |i: u8| Msg { chain: b"eth".to_vec(), id: vec![b'r', i], src: b"src".to_vec(), contract: app.clone(), ph: keccak(&[i]) };
+        let (m1, m2, m3) = (mk(1), mk(2), mk(3));
+        let pf = g.honest(&ws, &approve_data_hash(&g.env, &[m1.clone(), m2.clone()]));
+        g.approve(&[m1.clone(), m2.clone()], &pf, "approve-before-rotation");
+        let consume = |g: &mut G, m: &Msg, cls: &str| {
+            g.run.op(
+                &format!("gw.validate_message {} {} {} {} {} {}", app.tok(), hx(&m.chain), hx(&m.id), hx(&m.src), hex::encode(m.ph), AuthSpec::exact(&[app.clone()]).tok()),
+                cls,
+            );
+        };
+        consume(&mut g, &m1, "consume-before-rotation");
+        let ws2 = g.mk_set(2, 0, 2);
+        g.rotate_honest(&ws2, "rotation-between");
+        g.q_msg(&m1);
+        g.q_msg(&m2);
+        consume(&mut g, &m2, "consume-after-rotation");
+        consume(&mut g, &m2, "consume-after-rotation-again");
+        consume(&mut g, &m1, "consume-executed-after-rotation");
+        let pf = g.honest(&ws2, &approve_data_hash(&g.env, &[m3.clone(), m2.clone()]));
+        g.approve(&[m3.clone(), m2.clone()], &pf, "approve-after-rotation");
+        let ws3 = g.mk_set(2, 0, 2);
+        g.rotate_honest(&ws3, "rotation-between");
+        let ws4 = g.mk_set(2, 0, 2);
+        g.rotate_honest(&ws4, "rotation-between");
+        g.q_msg(&m3);
+        consume(&mut g, &m3, "consume-after-two-rotations");
+        g.q_msg(&m2);
+        g.q_msg(&m3);
     }
     // directed: ONE signed batch of 40 (thorough: 300) distinct messages — every one of them is recorded, announced and consumable
     {
